@@ -203,10 +203,12 @@ def comment(scanner: Scanner):
 def line_comment(scanner: Scanner, state: ScanState):
     """
     Consumes line comment of SCSS, LESS and Stylus: `// ...` up to the end of line.
-    Not inside parentheses: `url(//example.com/a.png)`
+    Inside parentheses (multi-line Sass map) comment must follow a white space:
+    `url(//example.com/a.png)` is not a comment
     """
-    if not state.expression and scanner.peek() == Chars.Slash and \
-        scanner.pos + 1 < scanner.end and scanner.string[scanner.pos + 1] == Chars.Slash:
+    if scanner.peek() == Chars.Slash and \
+        scanner.pos + 1 < scanner.end and scanner.string[scanner.pos + 1] == Chars.Slash and \
+        (not state.expression or (scanner.pos > 0 and is_space(scanner.string[scanner.pos - 1]))):
         scanner.start = scanner.pos
         while not scanner.eof() and scanner.peek() not in (Chars.LF, Chars.CR):
             scanner.pos += 1
